@@ -94,7 +94,7 @@ func loadProgram(sets []string) (*Program, error) {
 	}
 	prog, spkgs := ssautil.AllPackages(pkgs, ssa.InstantiateGenerics)
 	prog.Build()
-	p := &Program{prog: prog, pkg: spkgs[0], fset: pkgs[0].Fset, stubFns: map[string]*ssa.Function{}}
+	p := &Program{prog: prog, pkg: spkgs[0], fset: pkgs[0].Fset, stubFns: map[string]*ssa.Function{}, gopkg: pkgs[0]}
 	for name, m := range p.pkg.Members {
 		if fn, ok := m.(*ssa.Function); ok && strings.HasPrefix(name, "vxstub_") {
 			p.stubFns[strings.TrimPrefix(name, "vxstub_")] = fn
@@ -132,6 +132,7 @@ type RunSpec struct {
 	Reach    []string `json:"reach,omitempty"`
 	Bounds   string   `json:"bounds,omitempty"`
 	Raw      bool     `json:"raw,omitempty"`
+	FreeSw   int      `json:"free_switches,omitempty"` // 0: unbounded; n>0: at most n non-default choices when a goroutine blocks
 }
 
 type RunResult struct {
@@ -310,6 +311,11 @@ func (in *Interp) runPath(fn *ssa.Function, spec RunSpec, item *WorkItem) (reaso
 	in.threads = nil
 	in.preempts = 0
 	in.maxPreempt = spec.Preempt
+	in.frees = 0
+	in.maxFree = -1
+	if spec.FreeSw > 0 {
+		in.maxFree = spec.FreeSw
+	}
 	in.raceOn = spec.Race
 	in.mapOrder = spec.MapOrder
 	in.mutexes = map[*Object]map[int]*mutexState{}
@@ -418,6 +424,7 @@ func main() {
 		conccap := fs.Int("conccap", 0, "")
 		seed := fs.Int64("seed", 1, "")
 		verbose := fs.Bool("v", false, "")
+		freesw := fs.Int("freesw", 0, "bound on non-default choices at blocking points (0 = unbounded)")
 		raw := fs.Bool("raw", false, "no term rewriting: all VCs go to the solver")
 		fs.Parse(os.Args[2:])
 		p, err := loadProgram(strings.Split(*files, ","))
@@ -425,7 +432,7 @@ func main() {
 			fmt.Fprintln(os.Stderr, err)
 			os.Exit(3)
 		}
-		spec := RunSpec{Harness: *harness, Files: strings.Split(*files, ","), Preempt: *preempt, Race: *race, MaxPaths: *maxpaths, TimeoutS: *timeout, ConcCap: *conccap, Raw: *raw}
+		spec := RunSpec{Harness: *harness, Files: strings.Split(*files, ","), Preempt: *preempt, Race: *race, MaxPaths: *maxpaths, TimeoutS: *timeout, ConcCap: *conccap, Raw: *raw, FreeSw: *freesw}
 		if *args != "" {
 			spec.Args = strings.Split(*args, ",")
 		}
